@@ -68,3 +68,6 @@ CHECKS["C17"] = dict(
 CHECKS["C19"] = dict(
     text="A 145-plan family (step counts at every digit-width boundary x rotations of a (name, arity) alphabet) is rendered as Metric-FF logs under every header x trailer and every layout with <= D deviations, as no-plan logs, and as ENHSP files; status, returned steps and written plan file are compared with the generating plan.",
     note="trusted: the log generator (the generating plan is the specification) and the comparison code", technique="bounded-exhaustive enumeration of log renderings (deviation-bounded layout space) against a generating-plan oracle")
+CHECKS["C13"] = dict(
+    text="Every expression tree up to the node bound in two coefficient sub-spaces (exactly representable; near-integers and short decimals under every digit setting 0-6) and every set of 1-3 conditions with 0-2 eliminable equalities is simplified through all five entry points of the real library; the output is re-read by the library's own reader, checked to use only binary + - * /, normalised by an independent exact rational-function algebra (pv.polyalg) and evaluated on a rational grid against the input.",
+    note="trusted: pv.polyalg (exact Fraction polynomials / rational functions, self-tested with python -m pv.polyalg), pv.gens.exprs, pv.sexp; sympy is only ever run inside the library under test", technique="bounded-exhaustive enumeration of expression trees x coefficient classes x digit settings x entry points, exact-algebra equivalence oracle")
